@@ -132,6 +132,7 @@ def finish(prop, pd, tier, seed, results, wall, write_baseline=False):
     # ---- replay files + VIOLATION lines
     os.makedirs(os.path.join(VERIF, "replays"), exist_ok=True)
     vio_lines = []
+    seen_paths = set()
     for v in violations:
         path = os.path.join(VERIF, "replays", "%s_%s.json" % (prop, sanitize(v["name"])))
         with open(path, "w") as f:
@@ -140,7 +141,9 @@ def finish(prop, pd, tier, seed, results, wall, write_baseline=False):
         line = "VIOLATION property=%s replay=%s" % (prop, path)
         if not v["confirmed"]:
             line += " no-failing-input-found"
-        vio_lines.append(line)
+        if path not in seen_paths:
+            seen_paths.add(path)
+            vio_lines.append(line)
 
     level = pd.get("level", "proof")
     if n_obl == 0 and not bounded and not errors:
